@@ -1,6 +1,7 @@
 package c40
 
 import (
+	"errors"
 	"encoding/json"
 	"fmt"
 	"os"
@@ -87,6 +88,7 @@ type notifier struct {
 	recs   []rec
 	err    chan error
 	closed bool
+	broken bool
 }
 
 func newNotifier() *notifier { return &notifier{err: make(chan error)} }
@@ -94,6 +96,12 @@ func newNotifier() *notifier { return &notifier{err: make(chan error)} }
 func (n *notifier) Notify(key string, data interface{}) error {
 	m, ok := data.(message)
 	n.mu.Lock()
+	if n.broken {
+		// the client's connection is gone but its unsubscription has not been processed yet:
+		// what an rpc notifier answers in that state
+		n.mu.Unlock()
+		return errors.New("client is closed")
+	}
 	if ok {
 		n.recs = append(n.recs, rec{key: key, seq: m.Seq})
 	} else {
@@ -407,6 +415,25 @@ func run(c kase) (f *failure, r *runner) {
 				return f, r
 			}
 			r.class("op:pub-array")
+		case "break":
+			// the notifier starts to fail (Notify returns an error) while it stays registered: nothing
+			// is demanded of it any more, everything is still demanded of the others
+			if st.fired {
+				r.class("op:skipped(notifier already left)")
+				continue
+			}
+			subsB := 0
+			for _, c := range st.eff {
+				subsB += c
+			}
+			st.n.mu.Lock()
+			st.n.broken = true
+			st.n.mu.Unlock()
+			st.fired, st.left, st.leftAt = true, true, st.n.length()
+			if subsB > 0 {
+				r.class("failing-notifier-stays-registered")
+			}
+			r.class("op:break")
 		case "close":
 			if st.fired {
 				r.class("op:skipped(notifier already left)")
@@ -502,7 +529,7 @@ func genCase(t *rapid.T) kase {
 	}
 	c.Params = append([]string{""}, distinct(t, rapid.IntRange(1, 2).Draw(t, "nparams"), "param")...)
 	nt := len(c.NS) * len(c.Kinds) * len(c.Params)
-	kinds := []string{"sub", "sub", "sub", "sub", "pub", "pub", "pub", "pub", "pub-array", "close", "close", "sub-close"}
+	kinds := []string{"sub", "sub", "sub", "sub", "pub", "pub", "pub", "pub", "pub-array", "close", "close", "sub-close", "break"}
 	nops := rapid.IntRange(4, 24).Draw(t, "nops")
 	for k := 0; k < nops; k++ {
 		o := op{K: rapid.SampledFrom(kinds).Draw(t, "kind")}
@@ -558,7 +585,7 @@ func saveReplay(name string, v interface{}) {
 	_ = os.WriteFile(filepath.Join(dir, name), b, 0o644)
 }
 
-const rule = "rapid: 1-2 namespaces x 1-2 kinds x (namespace-wide key + 1-2 params) of generated identifiers without '_', 2-4 recording notifiers, 4-24 ops: Subscribe (also the same notifier 2-3 times on one key, back to back or later), Publish, PublishArray, closing the error channel; all on one real SubPub per case. A registration counts from the moment a probe message is delivered as often as the notifier is subscribed to the key; from then on every Publish reaching the key or published with its namespace-wide key must have been delivered when Publish returns; everything received must have been published for the receiving key, first occurrences per key in publication order; after the error channel fired, probe rounds are published until one is missed completely (10 s cap), then 6 more rounds must not be delivered. Non-trivial = a duplicate subscription or an unsubscription of a notifier with effective subscriptions; distinct by hash of the case"
+const rule = "rapid: 1-2 namespaces x 1-2 kinds x (namespace-wide key + 1-2 params) of generated identifiers without '_', 2-4 recording notifiers, 4-24 ops: Subscribe (also the same notifier 2-3 times on one key, back to back or later), Publish, PublishArray, closing the error channel, a notifier that starts to answer Notify with an error while it stays registered (a client whose connection broke; nothing more is demanded of it, everything of the others); all on one real SubPub per case. A registration counts from the moment a probe message is delivered as often as the notifier is subscribed to the key; from then on every Publish reaching the key or published with its namespace-wide key must have been delivered when Publish returns; everything received must have been published for the receiving key, first occurrences per key in publication order; after the error channel fired, probe rounds are published until one is missed completely (10 s cap), then 6 more rounds must not be delivered. Non-trivial = a duplicate subscription or an unsubscription of a notifier with effective subscriptions; distinct by hash of the case"
 
 func TestC40_Model(t *testing.T) {
 	r := evid.Get(id)
